@@ -5,18 +5,24 @@ package main
 
 import (
 	"fmt"
+	"os"
+	"path/filepath"
 	"strconv"
 	"strings"
 
 	"elaverif/harness/hx"
+	"elaverif/harness/regnet"
 
 	"github.com/elastos/Elastos.ELA/blockchain"
 	"github.com/elastos/Elastos.ELA/common"
 	"github.com/elastos/Elastos.ELA/common/config"
 	"github.com/elastos/Elastos.ELA/core/checkpoint"
+	"github.com/elastos/Elastos.ELA/core/types"
 	"github.com/elastos/Elastos.ELA/core/types/payload"
 	crstate "github.com/elastos/Elastos.ELA/cr/state"
 	"github.com/elastos/Elastos.ELA/crypto"
+	dlog "github.com/elastos/Elastos.ELA/dpos/log"
+	"github.com/elastos/Elastos.ELA/dpos/manager"
 	"github.com/elastos/Elastos.ELA/dpos/state"
 	"github.com/elastos/Elastos.ELA/mempool"
 )
@@ -149,11 +155,11 @@ func parseArbs(s string) []arb {
 	var res []arb
 	for _, x := range strings.Split(s, ",") {
 		p := strings.Split(x, ":")
-		if len(p[1]) != 1 || !strings.Contains("ocCdD", p[1]) {
+		if len(p[1]) != 1 || !strings.Contains("opcCdD", p[1]) {
 			panic("harness: bad arbiter kind " + p[1])
 		}
 		k := p[1][0]
-		res = append(res, arb{atoi(p[0]), k, k == 'o' || k == 'c' || k == 'C'})
+		res = append(res, arb{atoi(p[0]), k, k == 'o' || k == 'p' || k == 'c' || k == 'C'})
 	}
 	return res
 }
@@ -217,6 +223,9 @@ func setArbiters(arbs []arb, kn []known) {
 		case 'o':
 			m, err = state.NewOriginArbiter(pk)
 			arbiters.NodeOwnerKeys[hexKey] = hexKey // elected producers are registered producers
+		case 'p': // elected producer of the public-DPoS / DPoS-v2 eras
+			m, err = state.VerifDPoSArbiter(pk)
+			arbiters.NodeOwnerKeys[hexKey] = hexKey
 		case 'c', 'd':
 			m, err = state.NewCRCArbiter(pk, pk, &crstate.CRMember{}, a.normal)
 			arbParams.DPoSConfiguration.CRCArbiters = append(arbParams.DPoSConfiguration.CRCArbiters, hexKey)
@@ -308,8 +317,138 @@ func buildConfirm(bh common.Uint256, sponsor int, ssig bool, votes []vote) *payl
 	return &c
 }
 
+// ---------------------------------------------------------------- pool + chain on a real node
+//
+// chain <era> <step>…  : a fresh regnet node whose 5 origin arbiters are pool keys 0..4 and whose
+// DPoS gate (CRCOnlyDPOSHeight) is at height 3; blocks 1,2 are delivered directly.  The block under
+// test B extends the tip: era "d" at height 3 (DPoS era), era "p" on a node delivered only up to
+// height 1, so B has height 2 (before the DPoS era).  Steps, through the real BlockPool wired to the
+// real BlockChain:   b = AddDposBlock(B without confirmation),  B/<sponsor>/<ssig>/<votes> =
+// AddDposBlock(B with that confirmation),  c/<sponsor>/<ssig>/<votes> = AppendConfirm.
+// Output per step: <B connected to the main chain 0|1>:<index of the confirmation the pool holds|->.
+const chainArbiters = 5
+
+var chainSeq int
+
+type chainStep struct {
+	kind    byte
+	sponsor int
+	ssig    bool
+	votes   []vote
+}
+
+func parseChainSteps(toks []string) []chainStep {
+	var res []chainStep
+	for _, x := range toks {
+		if x == "b" {
+			res = append(res, chainStep{kind: 'b'})
+			continue
+		}
+		p := strings.Split(x, "/")
+		if len(p) != 4 || (p[0] != "c" && p[0] != "B") {
+			panic("harness: bad chain step " + x)
+		}
+		res = append(res, chainStep{p[0][0], atoi(p[1]), flag(p[2]), parseVotes(p[3])})
+	}
+	return res
+}
+
+func tmpBase() string {
+	if d := os.Getenv("TMPDIR"); d != "" {
+		return d
+	}
+	return "/var/tmp"
+}
+
+func execChain(t []string) string {
+	era := t[1]
+	steps := parseChainSteps(t[2:])
+	chainSeq++
+	dir := filepath.Join(tmpBase(), fmt.Sprintf("c25-%d-%d", os.Getpid(), chainSeq))
+	os.RemoveAll(dir)
+	defer os.RemoveAll(dir)
+	n, err := regnet.NewNode(dir, regnet.Options{CoinbaseMaturity: 2, NoPoolEvents: true, Tweak: func(p *config.Configuration) {
+		p.CRCOnlyDPOSHeight = 3
+		p.VoteStartHeight = 1 // the arbiter checkpoint must start before the DPoS era, as on every real network
+		p.DPoSConfiguration.OriginArbiters = nil
+		for i := 0; i < chainArbiters; i++ {
+			p.DPoSConfiguration.OriginArbiters = append(p.DPoSConfiguration.OriginArbiters, common.BytesToHexString(pool[i].pub))
+		}
+	}})
+	if err != nil {
+		panic("harness: new node: " + err.Error())
+	}
+	defer func() {
+		n.Close()
+		blockchain.DefaultLedger = &blockchain.Ledger{Arbitrators: arbiters}
+	}()
+	pre := 2
+	if era == "p" {
+		pre = 1
+	} else if era != "d" {
+		panic("harness: bad era " + era)
+	}
+	parent := n.Genesis
+	for h := 0; h < pre; h++ {
+		b, err := n.Mine(parent, nil)
+		if err != nil {
+			panic("harness: mine: " + err.Error())
+		}
+		if in, _, err := n.Deliver(b); err != nil || !in {
+			panic(fmt.Sprintf("harness: deliver prefix: %v %v", in, err))
+		}
+		parent = b
+	}
+	if got := n.Arbiters.GetArbitersCount(); got != chainArbiters {
+		panic(fmt.Sprintf("harness: node has %d arbiters", got))
+	}
+	B, err := n.Mine(parent, nil)
+	if err != nil {
+		panic("harness: mine B: " + err.Error())
+	}
+	bh := B.Hash()
+	bp := mempool.NewBlockPool(n.Params)
+	bp.Chain = n.Chain
+	bp.Store = n.Store
+	bp.IsCurrent = func() bool { return true }
+	var made []*payload.Confirm
+	var parts []string
+	for _, st := range steps {
+		var c *payload.Confirm
+		if st.kind != 'b' {
+			c = buildConfirm(bh, st.sponsor, st.ssig, st.votes)
+		}
+		made = append(made, c)
+		switch st.kind {
+		case 'b':
+			bp.AddDposBlock(&types.DposBlock{Block: B})
+		case 'B':
+			bp.AddDposBlock(&types.DposBlock{Block: B, HaveConfirm: true, Confirm: c})
+		case 'c':
+			bp.AppendConfirm(c)
+		}
+		connected := 0
+		if tip, _ := n.Tip(); tip == bh {
+			connected = 1
+		}
+		cached := "-"
+		if got, ok := bp.GetConfirm(bh); ok {
+			cached = "?"
+			for j, m := range made {
+				if m != nil && m == got {
+					cached = strconv.Itoa(j)
+				}
+			}
+		}
+		parts = append(parts, fmt.Sprintf("%d:%s", connected, cached))
+	}
+	return strings.Join(parts, " ")
+}
+
 func exec(t []string) string {
 	switch t[0] {
+	case "chain":
+		return execChain(t)
 	case "maj": // maj <n> <k>: GetArbitersMajorityCount with n current arbiters, HasArbitersMajorityCount(k)
 		n, k := atoi(t[1]), atoi(t[2])
 		if n < 1 || n > len(bigArbiters) {
@@ -330,6 +469,21 @@ func exec(t []string) string {
 		setArbiters(arbs, kn)
 		c := buildConfirm(common.Uint256{1, 2, 3, byte(sponsor)}, sponsor, ssig, votes)
 		return sanityName(blockchain.ConfirmSanityCheck(c)) + " " + contextName(blockchain.ConfirmContextCheck(c))
+	case "disp": // disp <arbiters> <votes>: ProposalDispatcher.ProcessVote(v, true) for each vote in turn
+		arbs, votes := parseArbs(t[1]), parseVotes(t[2])
+		if len(arbs) == 0 || len(votes) == 0 {
+			panic("harness: disp needs arbiters and votes")
+		}
+		setArbiters(arbs, nil)
+		blockchain.DefaultLedger = &blockchain.Ledger{Arbitrators: arbiters}
+		d := manager.NewVerifDispatcher(arbiters)
+		c := buildConfirm(common.Uint256{7, 7, 7}, arbs[0].key, true, votes)
+		var parts []string
+		for i := range c.Votes {
+			succeed, _, maj := d.ProcessVote(&c.Votes[i], true)
+			parts = append(parts, fmt.Sprintf("%s%s:%d", b2s(succeed), b2s(maj), d.AcceptCount()))
+		}
+		return strings.Join(parts, " ")
 	case "pool": // pool (<sponsor> <sponsorSigOk> <votes>)+ : BlockPool.AppendConfirm of each, all for one block hash
 		if (len(t)-1)%3 != 0 || len(t) < 4 {
 			panic("harness: pool op needs triples")
@@ -395,7 +549,8 @@ func fmtVotes(votes []vote) string {
 func genScenario(r *hx.Rand) scenario {
 	n := 1 + r.Intn(40)
 	if r.Chance(30) {
-		n = []int{1, 2, 3, 4, 5, 6, 12, 24, 36}[r.Intn(9)]
+		// set sizes of the eras: 5 origin, 12 CRC-only, 36 = 12 CRC + 24 elected, DPoS v2 adds random producers
+		n = []int{1, 2, 3, 4, 5, 6, 12, 24, 36, 38, 40}[r.Intn(11)]
 	}
 	perm := make([]int, poolSize)
 	for i := range perm {
@@ -413,11 +568,11 @@ func genScenario(r *hx.Rand) scenario {
 	}
 	arbs := make([]arb, n)
 	for i := range arbs {
-		kind := "oooocC"[r.Intn(6)]
+		kind := "ooppppcC"[r.Intn(8)]
 		if r.Chance(deposedPct) {
 			kind = "dD"[r.Intn(2)]
 		}
-		arbs[i] = arb{perm[i], kind, kind == 'o' || kind == 'c' || kind == 'C'}
+		arbs[i] = arb{perm[i], kind, kind == 'o' || kind == 'p' || kind == 'c' || kind == 'C'}
 	}
 	if n > 1 && r.Chance(4) {
 		arbs[n-1].key = arbs[0].key
@@ -562,6 +717,86 @@ func genPool(g *hx.Gen) {
 	g.Emit("pool %s", strings.Join(parts, " "))
 }
 
+// pool + chain: 1-4 steps for one block on a node with arbiters 0..4
+func genChain(g *hx.Gen) {
+	r := g.R
+	era := "d"
+	if r.Chance(10) {
+		era = "p"
+	}
+	mkConf := func() string {
+		k := []int{0, 1, 2, 3, 4, 4, 4, 5, 5}[r.Intn(9)]
+		perm := []int{0, 1, 2, 3, 4}
+		for i := 4; i > 0; i-- {
+			j := r.Intn(i + 1)
+			perm[i], perm[j] = perm[j], perm[i]
+		}
+		var votes []vote
+		for i := 0; i < k; i++ {
+			votes = append(votes, vote{perm[i], true, true, true})
+		}
+		for p := r.Intn(3); p > 0 && len(votes) > 0; p-- {
+			i := r.Intn(len(votes))
+			switch r.Intn(7) {
+			case 0:
+				votes = append(votes, votes[i])
+			case 1:
+				votes[i].accept = false
+			case 2:
+				votes[i].hashOk = false
+			case 3:
+				votes[i].sigOk = false
+			case 4:
+				votes[i].signer = 5 + r.Intn(20)
+			case 5:
+				votes = append(votes, vote{5 + r.Intn(20), true, true, true})
+			case 6: // every signature forged
+				for j := range votes {
+					votes[j].sigOk = false
+				}
+			}
+		}
+		sponsor, ssig := r.Intn(5), true
+		switch r.Intn(10) {
+		case 0:
+			sponsor = 5 + r.Intn(20)
+		case 1:
+			ssig = false
+		}
+		return fmt.Sprintf("%d/%s/%s", sponsor, b2s(ssig), fmtVotes(votes))
+	}
+	var steps []string
+	for i, m := 0, 1+r.Intn(4); i < m; i++ {
+		switch r.Intn(5) {
+		case 0, 1:
+			steps = append(steps, "b")
+		case 2:
+			steps = append(steps, "B/"+mkConf())
+		default:
+			steps = append(steps, "c/"+mkConf())
+		}
+	}
+	g.Emit("chain %s %s", era, strings.Join(steps, " "))
+}
+
+// dispatcher: the votes of a scenario arrive one by one as accept-vote messages
+func genDisp(g *hx.Gen) {
+	sc := genScenario(g.R)
+	if len(sc.votes) == 0 {
+		sc.votes = []vote{{sc.arbs[0].key, true, true, true}}
+	}
+	if g.R.Chance(70) { // what the handlers forward: votes naming the processing proposal
+		for i := range sc.votes {
+			sc.votes[i].hashOk = true
+		}
+	}
+	as := make([]string, len(sc.arbs))
+	for i, a := range sc.arbs {
+		as[i] = fmt.Sprintf("%d:%c", a.key, a.kind)
+	}
+	g.Emit("disp %s %s", strings.Join(as, ","), fmtVotes(sc.votes))
+}
+
 func gen(g *hx.Gen) {
 	r := g.R
 	// the float64 threshold against 2n/3: exhaustive prefix, then random up to 2^21
@@ -579,6 +814,12 @@ func gen(g *hx.Gen) {
 	}
 	for i := 0; i < g.N(1500, 30000); i++ {
 		genPool(g)
+	}
+	for i := 0; i < g.N(1500, 30000); i++ {
+		genDisp(g)
+	}
+	for i := 0; i < g.N(24, 1500); i++ {
+		genChain(g)
 	}
 }
 
@@ -609,6 +850,73 @@ func oracle(t []string, out string) *hx.Violation {
 		f := strings.Fields(out)
 		if len(f) == 2 && atoi(f[0]) != 2*n/3 {
 			return &hx.Violation{Kind: "majority-not-two-thirds", Detail: fmt.Sprintf("GetArbitersMajorityCount=%s for %d arbiters, 2n/3=%d", f[0], n, 2*n/3)}
+		}
+	case "disp":
+		// whenever the dispatcher holds a majority of accept votes that all name the processing
+		// proposal, they must come from more than 2n/3 distinct normal arbiters with valid signatures
+		if out == "panic" {
+			return nil
+		}
+		arbs, votes := parseArbs(t[1]), parseVotes(t[2])
+		normal := map[int]bool{}
+		for _, a := range arbs {
+			if a.normal {
+				normal[a.key] = true
+			}
+		}
+		good := map[int]bool{}
+		for i, o := range strings.Fields(out) {
+			v := votes[i]
+			if !v.hashOk {
+				return nil // a vote for another proposal: outside the handlers' precondition
+			}
+			if o[0] == '1' && !(v.accept && v.sigOk && normal[v.signer]) {
+				return &hx.Violation{Kind: "dispatcher-counted-bad-vote", Detail: fmt.Sprintf("vote %d of signer %d was collected although it is not a valid accepting vote of a normal arbiter", i, v.signer)}
+			}
+			if v.accept && v.sigOk && normal[v.signer] {
+				good[v.signer] = true
+			}
+			if o[1] == '1' && 3*len(good) <= 2*len(arbs) {
+				return &hx.Violation{Kind: "dispatcher-majority-without-quorum", Detail: fmt.Sprintf("majority reported after vote %d with %d distinct valid signers of %d arbiters", i, len(good), len(arbs))}
+			}
+		}
+	case "chain":
+		if out == "panic" || t[1] != "d" {
+			return nil
+		}
+		steps := parseChainSteps(t[2:])
+		outs := strings.Fields(out)
+		acceptable := false // some confirmation supplied so far is a valid quorum of arbiters 0..4
+		for i, st := range steps {
+			if st.kind != 'b' && saneConf(st.ssig, st.votes) && st.sponsor < chainArbiters {
+				good := map[int]bool{}
+				ok := true
+				for _, v := range st.votes {
+					if v.signer >= chainArbiters {
+						ok = false
+					}
+					good[v.signer] = true
+				}
+				if ok && 3*len(good) > 2*chainArbiters {
+					acceptable = true
+				}
+			}
+			if i >= len(outs) {
+				break
+			}
+			f := strings.Split(outs[i], ":")
+			if f[0] == "1" && !acceptable {
+				return &hx.Violation{Kind: "chain-connected-without-valid-confirm", Detail: fmt.Sprintf("after step %d the block is in the main chain although no confirmation supplied so far is a validly signed two-thirds quorum of the current arbiters", i)}
+			}
+			if f[1] != "-" {
+				if f[1] == "?" {
+					return &hx.Violation{Kind: "pool-cached-unknown-confirm", Detail: "the pool holds a confirmation that was never supplied"}
+				}
+				j := atoi(f[1])
+				if j > i || steps[j].kind == 'b' || !saneConf(steps[j].ssig, steps[j].votes) {
+					return &hx.Violation{Kind: "pool-cached-insane-confirm", Detail: fmt.Sprintf("after step %d the block pool holds confirmation %d, which fails the signature/accept/hash checks", i, j)}
+				}
+			}
 		}
 	case "pool":
 		if out == "panic" {
@@ -666,5 +974,12 @@ func nontrivial(t []string, out string) bool {
 func main() {
 	initPool()
 	initArbiters()
+	// dpos/log has its own package-level logger (used by the dispatcher); level 255 = silent
+	ldir, err := os.MkdirTemp("", "c25log")
+	if err != nil {
+		panic(err)
+	}
+	defer os.RemoveAll(ldir)
+	dlog.Init(ldir, 255, 0, 0)
 	hx.Main(&hx.Prop{Name: "C25", Gen: gen, Exec: exec, Oracle: oracle, Nontrivial: nontrivial})
 }
